@@ -28,10 +28,13 @@ def tkind(t):
 
 
 class Driver:
-    def __init__(self, d, dump, model, so, seed, ncalls, string_mode):
+    def __init__(self, d, dump, model, so, seed, ncalls, string_mode, backend="c"):
         self.rng = random.Random(seed)
         self.dump, self.m = dump, model
+        self.backend = backend
+        self.wkey = "c_wrappers" if backend == "c" else "python_wrappers"
         self.lib = ctypes.CDLL(so)
+        self.pylib = ctypes.PyDLL(so) if backend == "python" else None
         self.ncalls = ncalls
         self.string_mode = string_mode
         self.T = {t["index"]: t for t in dump["types"]}
@@ -82,10 +85,34 @@ class Driver:
         return f(p)
 
     def fn(self, w):
+        if self.backend == "python":
+            return self.pyfn(w)
         f = getattr(self.lib, w["name"])
         f.argtypes = [self.ctype(p["type"]) for p in w["params"]]
         f.restype = self.ctype(w["return_type"]) if w["has_return_value"] else None
         return f
+
+    def pyfn(self, w):
+        """-python (simple) wrappers: extern "C" PyObject *name(PyObject *self, PyObject *args); handles are ints"""
+        f = getattr(self.pylib, w["name"])
+        f.argtypes = [ctypes.py_object, ctypes.py_object]
+        f.restype = ctypes.py_object
+        kinds = [self.T[p["type"]] for p in w["params"]]
+        rt = self.T[w["return_type"]] if w["has_return_value"] else None
+
+        def conv(v, t):
+            if v is None:
+                return 0
+            if isinstance(v, bytes):
+                return v.decode("utf-8")
+            return v
+
+        def call(*args):
+            r = f(None, tuple(conv(a, t) for a, t in zip(args, kinds)))
+            if isinstance(r, str):
+                return r.encode("utf-8")
+            return r
+        return call
 
     # ---- argument construction (values drawn inside the *declared* C++ type)
     def make_arg(self, t):
@@ -197,7 +224,18 @@ class Driver:
             self.features.add("default-omitted:" + tkind(t))
         f = self.fn(w)
         self.trace()
-        got = f(*args)
+        try:
+            got = f(*args)
+        except Exception as ex:
+            # only the -python back-end can raise; a category-exact, in-range call must not
+            wide = "none"
+            for mp, a in zip(ps, args[(1 if x["kind"] == "method" else 0):]):
+                if mp["type"]["k"] == "int" and isinstance(a, int) and not (-2 ** 31 <= a < 2 ** 31):
+                    wide = tkind(mp["type"])
+                    break
+            self.trace()
+            self.bad(f"wrapper-raised:{type(ex).__name__}:wide-arg={wide}", fn=x["qname"], msg=str(ex)[:100])
+            return True
         tr = self.trace()
         self.count("wrapper_calls")
         evs = [l for l in tr if l.startswith("E %d " % x["eid"])]
@@ -257,7 +295,7 @@ class Driver:
         for qn, lst in groups.items():
             look = qn.replace("operator int", "operator typecast int") if lst[0][0].get("typecast") else qn
             for dbf in byname.get(look, []):
-                ws = [self.W[w] for w in dbf["c_wrappers"] if w in self.W]
+                ws = [self.W[w] for w in dbf[self.wkey] if w in self.W]
                 for x, c in lst:
                     nd = 0
                     for p in reversed(x["params"]):
@@ -305,7 +343,7 @@ class Driver:
                 if e is None or not e["has_getter"]:
                     continue
                 g = self.F.get(e["getter"])
-                gw = [self.W[w] for w in g["c_wrappers"] if w in self.W and self.W[w]["name"]] if g else []
+                gw = [self.W[w] for w in g[self.wkey] if w in self.W and self.W[w]["name"]] if g else []
                 if not gw:
                     continue
                 alive = [h for h in self.pool[c["qname"]] if h not in self.dead]
@@ -324,7 +362,7 @@ class Driver:
                     self.features.add("member:" + ("static" if mm["static"] else "const" if mm["const"] else "plain") + ":" + t["k"])
                     if e["has_setter"] and not mm["const"]:
                         s = self.F.get(e["setter"])
-                        sw = [self.W[w] for w in s["c_wrappers"] if w in self.W and self.W[w]["name"]]
+                        sw = [self.W[w] for w in s[self.wkey] if w in self.W and self.W[w]["name"]]
                         if sw:
                             v, lg = self.make_arg(t if t["k"] != "string" else dict(k="string"))
                             self.fn(sw[0])(*(a + [v]))
@@ -370,7 +408,7 @@ class Driver:
                     exp = nat(h)
                     if d["has_upcast"]:
                         uf = self.F.get(d["upcast"])
-                        uw = [self.W[w] for w in uf["c_wrappers"] if w in self.W and self.W[w]["name"]] if uf else []
+                        uw = [self.W[w] for w in uf[self.wkey] if w in self.W and self.W[w]["name"]] if uf else []
                         if uw:
                             self.count("cast_calls")
                             self.features.add("upcast")
@@ -387,7 +425,7 @@ class Driver:
                             self.bad("upcast-missing-but-pointer-differs", cls=c["qname"], base=bt["scoped_name"])
                     if d["has_downcast"]:
                         df = self.F.get(d["downcast"])
-                        dw = [self.W[w] for w in df["c_wrappers"] if w in self.W and self.W[w]["name"]] if df else []
+                        dw = [self.W[w] for w in df[self.wkey] if w in self.W and self.W[w]["name"]] if df else []
                         if dw:
                             self.count("cast_calls")
                             self.features.add("downcast")
@@ -401,7 +439,7 @@ class Driver:
             if t is None or not t["has_destructor"]:
                 continue
             df = self.F.get(t["destructor"])
-            dw = [self.W[w] for w in df["c_wrappers"] if w in self.W and self.W[w]["name"]] if df else []
+            dw = [self.W[w] for w in df[self.wkey] if w in self.W and self.W[w]["name"]] if df else []
             if not dw:
                 continue
             f = self.fn(dw[0])
@@ -422,7 +460,8 @@ class Driver:
 
 def main():
     d, dumpf, modelf, so, seed, ncalls, smode = sys.argv[1:8]
-    drv = Driver(d, json.load(open(dumpf)), json.load(open(modelf)), so, int(seed), int(ncalls), smode == "1")
+    backend = sys.argv[8] if len(sys.argv) > 8 else "c"
+    drv = Driver(d, json.load(open(dumpf)), json.load(open(modelf)), so, int(seed), int(ncalls), smode == "1", backend)
     err = None
     try:
         drv.run()
